@@ -130,7 +130,7 @@ def advance (cfg : Cfg) : Nat → State → Nat → State × Option String
         | none => (s, some "stuck")
 
 def posHeight : Option Item → String
-  | some { body := .pos (some (_, h)), .. } => toString h
+  | some { body := .pos (some (_, h)), .. } => toString (max h 1)   -- number of rows erased (`height - 1` cursor-up moves)
   | _ => "-"
 
 /-- The observable of the visible action thread `t` just performed (`s` before, `s'` after). -/
